@@ -285,3 +285,14 @@ def lossy_casts(term):
         if d is not None and d not in FLOAT_TYPES:
             out.append((x, d))
     return out
+
+
+def hidden_state(rep, rule, w, terms, allowed):
+    """the result may depend on the distribution only through the attributes in `allowed`: reading any other
+    attribute of self (a cache written by earlier calls) makes the answer depend on the call history"""
+    extra = sorted({x[1] for t in terms for x in walk(t) if isinstance(x, tuple) and len(x) == 2 and x[0] == "self" and x[1] not in allowed})
+    if extra:
+        rep.bad(rule, w, "the result reads self.%s, state that is not part of the distribution (mean / covariance): it depends on what earlier calls left there" % ", self.".join(extra))
+    else:
+        rep.ok(rule, w, "the result is a function of self.%s and the arguments only" % ", self.".join(sorted(allowed)))
+    return extra
